@@ -4,7 +4,8 @@ from copy import copy
 
 RULE = ("random curves (polynomial/rational, degree 0..3, repeated knots): split at random nodes (new values, existing knots, ends, repeats), "
         "split() into Bezier pieces, re-join of the pieces; independently built adjacent pairs (continuous or not, different degrees, "
-        "rational or not); different meeting points.  Non-trivial: degree >= 1 and at least one cut; distinct = distinct (curve, nodes).")
+        "rational or not); different meeting points.  Non-trivial: degree >= 1 and at least one cut; distinct = distinct (curve, nodes)."
+        " Also: operands refined by knot insertion (only the junction knot may lose multiplicity), repeated split after modifying the pieces.")
 EXPLANATION = ("L2: pieces and joined curve vs the model; L3: `rf.eqsub` (each piece equals the original on its sub-interval, for every u), "
                "piece count / clamping, `rf.eq` of the re-joined curve, expected junction multiplicities from the exact jump orders (`rf.needed`).")
 ASSUMPTIONS = ["weights positive"]
